@@ -70,13 +70,13 @@ claim("C17",
 
 claim("C07",
   "wire-integer taint analysis over SSA with guarded-reachability sanitisers + recursive minimum-consumption summaries + call-graph panic reachability",
-  "Decides the clause visible in the code's shape: no allocation size or loop bound comes from an integer read off the wire without a constant (or existing-capacity) upper bound, and none that went through a signed type reaches a panicking sink without a lower bound; loops bounded by a wire count must consume at least one byte per iteration (callee summaries computed from ReadN constant lengths). Plus: no explicit panic reachable from a decoder, checked arities of parallel slices in the signature node builders, unchecked assertions confined to confirmed sites.",
+  "Decides the clause visible in the code's shape: no allocation size or loop bound comes from an integer read off the wire without a constant (or existing-capacity) upper bound, and none that went through a signed type reaches a panicking sink without a lower bound; loops bounded by a wire count must consume at least one byte per iteration (callee summaries computed from ReadN constant lengths). Plus: no explicit panic reachable from a decoder, checked arities of parallel slices in the signature node builders, unchecked assertions confined to confirmed sites. Also: a wire integer indexes or slices only behind a comparison with the length of what is indexed (C07.wire-index); no package-level map is written at run time without a lock and no shared map under a read lock only (C07.shared-state). Zero-count rules are exercised on every run by positive and negative examples overlaid on the repository (DESIGN §8a).",
   "Absence of implicit panics and hangs in general, and time/memory proportional to input, are not decided (need execution). The rule is interprocedural for allocation parameters and also decides that no two alternatives of an ordered choice of the signature / IDL grammars share a prefix with a non-terminal (exponential backtracking: D20, fixed). D8 (generated decoders allocated from the wire count, 16 sites) was first a known finding and is fixed in /repo (6a14ca9).",
   "DESIGN.md §3 C07")
 
 claim("C08",
   "SSA error-flow over the computed decoder set + ownership of the reader (closed list of consumers) + ReadN completeness by guarded reachability",
-  "Decides (a) ReadN returns nil only when length bytes arrived, accumulates exactly what Read returned, and every ReadN call passes the length of the buffer it fills; (b) for every decoder call inside the decoder set (computed by reader-argument flow from ReadN) the error is used and every path on which it may be non-nil returns a non-nil error derived from it; (c) readers are consumed only through the repository's decoders (no type-asserted fast paths, io.Copy/LimitReader/bufio). Together: a strict prefix makes some ReadN fall short and that shortfall reaches the caller.",
+  "Decides (a) ReadN returns nil only when length bytes arrived, accumulates exactly what Read returned, and every ReadN call passes the length of the buffer it fills; (b) for every decoder call inside the decoder set (computed by reader-argument flow from ReadN) the error is used and every path on which it may be non-nil returns a non-nil error derived from it; (c) readers are consumed only through the repository's decoders (no type-asserted fast paths, io.Copy/LimitReader/bufio). Together: a strict prefix makes some ReadN fall short and that shortfall reaches the caller. (d) decoding steps outside the decoder set — stub methods, proxies, handlers that build a reader over bytes they were given, functions handed a reader that have no error result — look at the error of every step (C08.roots); a wrapper built around a handed-in reader keeps the function inside the decoder set.",
   "Exact consumption of valid encodings is taken from the shape rules of C01–C03; io.Reader contract trusted.",
   "DESIGN.md §3 C08")
 
@@ -89,7 +89,7 @@ claim("C01",
 
 claim("C02",
   "dispatch-table agreement (AST constants + SSA return types) + wire-shape comparison writer/reader + consumed-equals-returned on TypeReaders with value identity",
-  "Decides that every value type's constant signature has a row in NewValue's table whose constructor returns that type, that each Write emits signature + exactly the shape its constructor reads, that every signature-driven reader re-emits each value it read with the dual primitive, in order, into a buffer created by that call, that opaque values store what the reader returned, and that size limits are inclusive on every side.",
+  "Decides that every value type's constant signature has a row in NewValue's table whose constructor returns that type, that each Write emits signature + exactly the shape its constructor reads, that every signature-driven reader re-emits each value it read with the dual primitive, in order, into a buffer created by that call, that opaque values store what the reader returned, and that size limits are inclusive on every side. The value decoders and signature readers consume their source only through the repository's decoders (no read-ahead wrapper, no probe of the concrete source: C02.reader-discipline).",
   "Equality of decoded values for all inputs and depths is not decided; bytes.Buffer trusted.",
   "DESIGN.md §3 C02")
 
@@ -101,7 +101,7 @@ claim("C03",
 
 claim("C09",
   "table agreement between grammar atoms, switch cases, constructor rows and printer tokens (AST constants) + guarded reachability on Parse",
-  "Decides that every grammar letter has a case whose constructor prints that letter, that each composite printer emits exactly the atoms of its grammar production (and the struct-name patterns accept the same identifiers inside and outside the template brackets), that Parse succeeds only at end of input with one type and keeps no state, and that node builders cannot panic on error nodes (unchecked assertions only on terminals, parallel slices length-checked).",
+  "Decides that every grammar letter has a case whose constructor prints that letter, that each composite printer emits exactly the atoms of its grammar production (and the struct-name patterns accept the same identifiers inside and outside the template brackets), that Parse succeeds only at end of input with one type and keeps no state, and that node builders cannot panic on error nodes (unchecked assertions only on terminals, parallel slices length-checked). The Go representation of a struct or tuple names every field after the member's name (C09.go-fields).",
   "Grammar-wide identity, rejection of every other string and goparsec internals are not decided.",
   "DESIGN.md §3 C09")
 
@@ -124,6 +124,6 @@ for pid in ["C01","C02","C03","C04","C06","C07","C08","C09","C10","C11","C12","C
 
 claim("C05",
   "emitted-operation extraction over the code generator's syntax tree (jen call chains, string fragments, Type.Marshal/Unmarshal calls, loops over Members/Params) and dual comparison of the write and read sides + per-iteration completeness on SSA",
-  "Decides, on the generator itself (meta/signature, meta/stub, meta/idl), the structural clauses without which the generated halves cannot be inverses for any IDL: every scalar constructor names the Write and Read primitive of its own letter; for list, map, tuple, struct and enum the operations emitted by Marshal are the dual of those emitted by Unmarshal (same primitives, same members in the same order, same Go expression on both sides, generated loops in the same places behind a 32-bit count, struct read/write functions declared under the names the call sites use and covering every member); every emitter that encodes or decodes a parameter list handles each declared parameter exactly once per iteration with the parameter's own type (stub method, signal and property bodies, proxy bodies); the stub encodes the result after decoding the parameters.",
+  "Decides, on the generator itself (meta/signature, meta/stub, meta/idl), the structural clauses without which the generated halves cannot be inverses for any IDL: every scalar constructor names the Write and Read primitive of its own letter; for list, map, tuple, struct and enum the operations emitted by Marshal are the dual of those emitted by Unmarshal (same primitives, same members in the same order, same Go expression on both sides, generated loops in the same places behind a 32-bit count, struct read/write functions declared under the names the call sites use and covering every member); every emitter that encodes or decodes a parameter list handles each declared parameter exactly once per iteration with the parameter's own type (stub method, signal and property bodies, proxy bodies); the stub encodes the result after decoding the parameters. The reflection codec the generated proxy uses is held to the composite/kind rules of C03 (fresh storage per decoded element, every kind through its own primitive).",
   "NOT decided: that the generated text compiles for every IDL (identifier hygiene, imports, name collisions, well-formedness of the string fragments), that a signal's tuple type on the subscriber side is the tuple of the emitter's parameters, equality of values end to end. The generator is never run; only its source is analysed, so a check of the generated output for an unseen IDL is out of reach of this technique.",
   "DESIGN.md §3 C05")
